@@ -111,6 +111,10 @@ def r_child_abc(ck: Checker, rule: str = "R-PRESENCE") -> None:
     what2 = "ASTNode.children is the materialised get_child_nodes() stream"
     if len(rets) == 1 and norm(rets[0].value) in ("list(self.get_child_nodes())", "[*self.get_child_nodes()]", "list(self.get_child_nodes(sort_keys=False))"):
         ck.holds(rule, ch, rets[0], what2)
+    elif any("get_child_nodes(" in norm(r.value) for r in rets) and any(isinstance(c, ast.Call) and (dotted(c.func) or "") in ("dict.fromkeys", "set", "frozenset", "OrderedDict.fromkeys", "collections.OrderedDict.fromkeys")
+                                                                       for r in rets for c in ast.walk(r.value)):
+        ck.violation(rule, ch, ch.node, what2, positive=True, construct=f"ASTNode.children de-duplicates the stream ({[norm(r.value)[:50] for r in rets][0]}): a node that occupies two child positions "
+                     "(or a twin comparing equal) is listed once, and children disagrees with get_child_nodes")
     elif any("get_child_nodes(" in norm(r.value) for r in rets):
         raise Unsupported(f"ASTNode.children returns {[norm(r.value)[:50] for r in rets]}", ch.node)
     else:
